@@ -392,6 +392,46 @@ GLASSO_FAULTS = ["raise_fpe", "raise_linalg", "raise_value", "nan", "inf",
                  "neginf", "indefinite", "indefinite_even", "slightly_negative", "all_nan"]
 
 
+# ------------------------------------------------------------------- LDA seam
+
+class LdaSeam(object):
+  """Rebinds the module-level name LinearDiscriminantAnalysis inside
+  metric_learn.scml: the local LDA fits of SCML_Supervised's 'lda' basis.  In
+  fault mode the k-th fit raises LinAlgError (what scikit-learn's LDA does on a
+  degenerate local region).  Missing name => fault kind switched off."""
+
+  def __init__(self, fail_at=None):
+    self.fail_at = fail_at
+    self.calls = 0
+    self.fired = 0
+    self.mod = sys.modules.get("metric_learn.scml")
+    self.missing = self.mod is None or not hasattr(self.mod, "LinearDiscriminantAnalysis")
+    self.orig = None
+
+  def __enter__(self):
+    if self.missing:
+      return self
+    seam = self
+    self.orig = self.mod.LinearDiscriminantAnalysis
+
+    class FaultyLDA(self.orig):
+      def fit(self_, X, y, *a, **k):
+        i = seam.calls
+        seam.calls += 1
+        if seam.fail_at is not None and i == seam.fail_at:
+          seam.fired += 1
+          raise np.linalg.LinAlgError("simulated: SVD did not converge")
+        return seam.orig.fit(self_, X, y, *a, **k)
+    FaultyLDA.__name__ = "LinearDiscriminantAnalysis"
+    self.mod.LinearDiscriminantAnalysis = FaultyLDA
+    return self
+
+  def __exit__(self, *exc):
+    if not self.missing:
+      self.mod.LinearDiscriminantAnalysis = self.orig
+    return False
+
+
 # ------------------------------------------------------------------ clock seam
 
 class SimClock(object):
@@ -740,11 +780,60 @@ def ambient_snapshot():
 
 # ------------------------------------------------------------ warnings, stdout
 
+class RunWarnings(object):
+  """Run-level warning recorder.  The warning filters are set up ONCE for the
+  whole run ('always', in front) and every warning is recorded through the
+  warnings.showwarning hook; the individual operations do not enter
+  catch_warnings any more.  So the filter list is process state that lives
+  across the operations of a run, as it does in a user's process - a library
+  call that leaves a filter behind (e.g. an 'ignore' that it fails to remove)
+  is visible to what comes later in the same run."""
+
+  ACTIVE = [None]
+
+  def __enter__(self):
+    self.saved_filters = warnings.filters[:]
+    self.saved_show = warnings.showwarning
+    warnings.simplefilter("always")
+    self.log = []
+
+    def show(message, category, filename, lineno, file=None, line=None):
+      self.log.append(warnings.WarningMessage(message, category, filename, lineno, file, line))
+    self.show = show
+    warnings.showwarning = show
+    self.prev = RunWarnings.ACTIVE[0]
+    RunWarnings.ACTIVE[0] = self
+    return self
+
+  def __exit__(self, *exc):
+    RunWarnings.ACTIVE[0] = self.prev
+    warnings.showwarning = self.saved_show
+    warnings.filters[:] = self.saved_filters
+    try:
+      warnings._filters_mutated()
+    except Exception:
+      pass
+    return False
+
+
 @contextlib.contextmanager
 def observed():
   """Record every warning (independent of what was warned earlier) and swallow
-  verbose printing."""
+  verbose printing.  Inside a RunWarnings context the filters are left alone and
+  the warnings of this block are the slice of the run-level log it produced."""
   out = io.StringIO()
+  rw = RunWarnings.ACTIVE[0]
+  if rw is not None and warnings.showwarning is rw.show:
+    start = len(rw.log)
+    wlist = []
+    old = sys.stdout
+    sys.stdout = out
+    try:
+      yield wlist
+    finally:
+      sys.stdout = old
+      wlist.extend(rw.log[start:])
+    return
   with warnings.catch_warnings(record=True) as wlist:
     warnings.simplefilter("always")
     old = sys.stdout
